@@ -352,7 +352,18 @@ def check_context(run: common.Run, steps: List[str], report) -> None:
         sentinel = f"filter-{i}"
         del seen[:]
         try:
-            compiled[step].evaluate({}, filter=sentinel)
+            if step == "inside-with":
+                # the documented context manager around an evaluation that installs its own context
+                with c7n.C7NContext(filter=sentinel):
+                    compiled["ok"].evaluate({}, filter=sentinel)
+            elif step == "reentered-with":
+                # one context object entered twice (a batch-level `with` around per-resource ones that reuse the object)
+                ctx_obj = c7n.C7NContext(filter=sentinel)
+                with ctx_obj:
+                    with ctx_obj:
+                        compiled["ok"].evaluate({}, filter=sentinel)
+            else:
+                compiled[step].evaluate({}, filter=sentinel)
             ended = "value"
         except CELEvalError:
             ended = "celerror"
@@ -360,7 +371,7 @@ def check_context(run: common.Run, steps: List[str], report) -> None:
             ended = "hostraise"
         except Exception as ex:
             ended = "other:" + type(ex).__name__
-        want_end = {"ok": "value", "nested-ok": "value", "celerror": "celerror", "hostraise": "hostraise"}[step]
+        want_end = {"ok": "value", "nested-ok": "value", "celerror": "celerror", "hostraise": "hostraise", "inside-with": "value", "reentered-with": "value"}[step]
         if ended != want_end:
             report(f"context-step-{step}-ended-{ended}", dict(case, at=i), f"step {i} {step}: ended {ended}")
         if not seen or any(s != sentinel for s in seen):
@@ -431,7 +442,7 @@ def campaign(run: common.Run) -> None:
                                     "resource-type": st.text(alphabet="abcxyz-", min_size=1, max_size=6), "resource-id": st.text(alphabet="abcxyz0123456789-_.", min_size=1, max_size=10),
                                     "tail": st.sampled_from(["", "", ":*", ":sub:id", ":a", ":", "::x"])})
     common.drive(run, lambda s, f: check_arn(run, s, f, run.hyp_fail), {"s": st.integers(0, 2), "f": fields}, n(200, 4000), seed_salt=9)
-    common.drive(run, lambda steps: check_context(run, steps, run.hyp_fail), {"steps": st.lists(st.sampled_from(["ok", "celerror", "hostraise", "nested-ok"]), min_size=1, max_size=6)}, n(150, 3000), seed_salt=10)
+    common.drive(run, lambda steps: check_context(run, steps, run.hyp_fail), {"steps": st.lists(st.sampled_from(["ok", "celerror", "hostraise", "nested-ok", "inside-with", "reentered-with"]), min_size=1, max_size=6)}, n(150, 3000), seed_salt=10)
 
 
 def main(run: common.Run) -> None:
